@@ -239,7 +239,8 @@ def _gen_op(rng, kind, spec, cfg, tabs):
         op['out'] = out
         op['driver'] = rng.random() < 0.5
         op['driver_scaling'] = rng.random() < 0.3
-        op['directional'] = rng.random() < 0.25
+        # (directional=True with indexed design variables / approx_totals raises inside the check - not C31)
+        op['directional'] = False
         if op['method'] == 'fd':
             op['form'] = rng.choice([None, 'forward', 'central'])
             op['step'] = rng.choice([None, 1e-6, [1e-5, 1e-6]])
@@ -402,6 +403,8 @@ def make_plan(seed):
             kind = rng.choice(RO_KINDS)
             if kind == 'coloring' and not cfg['colorable']:
                 kind = 'compute_totals'
+            if kind == 'jacvec' and cfg['approx_totals']:
+                kind = 'compute_totals'      # no linear solve exists for an approximated root jacobian
             op = _gen_op(rng, kind, spec, cfg, tabs)
             op['keep'] = rng.random() < 0.25
             hist.append(op)
@@ -526,6 +529,31 @@ def _zero_linear(model):
     model._doutputs.set_val(0.0)
     model._dresiduals.set_val(0.0)
     model._dinputs.set_val(0.0)
+
+
+_BROYDEN_ATTRS = ('Gm', 'xm', 'fxm', 'delta_xm', 'delta_fxm', '_recompute_jacobian', '_converge_failures',
+                  '_computed_jacobians')
+
+
+def _broydens(model):
+    from openmdao.solvers.nonlinear.broyden import BroydenSolver
+    return [s._nonlinear_solver for s in model.system_iter(include_self=True, recurse=True)
+            if isinstance(getattr(s, '_nonlinear_solver', None), BroydenSolver)]
+
+
+def _save_broyden(model):
+    return [{a: copy.deepcopy(getattr(b, a, None)) for a in _BROYDEN_ATTRS} for b in _broydens(model)]
+
+
+def _restore_broyden(model, saved):
+    for b, d in zip(_broydens(model), saved):
+        for a, v in d.items():
+            setattr(b, a, copy.deepcopy(v))
+
+
+def _fresh_broyden(model):
+    for b in _broydens(model):
+        b._recompute_jacobian = True
 
 
 def _save_linear(model):
@@ -767,7 +795,7 @@ class HistoryRun:
             kw['units'] = op['units']
         prob.set_val(op['name'], val, **kw)
 
-    def run(self, include=None, keep_lin_across=()):
+    def run(self, include=None, keep_lin_across=(), keep_broyden_across=()):
         plan = self.plan
         cfg = plan['cfg']
         from omv.gen.c31_kit import discrete_restore
@@ -799,7 +827,7 @@ class HistoryRun:
                     elif k == 'rerun':
                         s0 = Snap(model)
 
-                        def again(zero):
+                        def again(zero, fresh=False):
                             model._inputs.set_val(s0.inputs)
                             model._outputs.set_val(s0.outputs)
                             discrete_restore(model, s0.discrete)
@@ -807,6 +835,8 @@ class HistoryRun:
                                 raise RuntimeError('harness: state could not be restored')
                             if zero:
                                 _zero_linear(model)
+                            if fresh:
+                                _fresh_broyden(model)
                             prob.run_model()
                             return Snap(model)
                         prob.run_model()
@@ -818,12 +848,21 @@ class HistoryRun:
                         if df:
                             # diagnosis by intervention: does the difference vanish when the LINEAR vectors (left over
                             # from the previous solve, used as initial guess by iterative linear solvers) are zeroed?
+                            # ... or when every BroydenSolver is told to start from a fresh jacobian?
                             o3 = again(True)
                             o4 = again(True)
+                            mech = None
+                            if not o3.diff(o4):
+                                mech = 'leftover-linear-vectors'
+                            elif _broydens(model):
+                                o5 = again(True, True)
+                                o6 = again(True, True)
+                                if not o5.diff(o6):
+                                    mech = 'broyden-jacobian-carried-over'
                             nls = '+'.join(n for n in plan['nls'] if n != 'runonce') or 'runonce'
                             for which, txt in df:
-                                if not o3.diff(o4):
-                                    key = 'leftover-linear-vectors:run_model-twice:%s-differ' % which
+                                if mech:
+                                    key = '%s:run_model-twice:%s-differ' % (mech, which)
                                 else:
                                     key = 'run_model-twice:%s-differ:nl=%s' % (which, nls)
                                 self.ro_viol.append((key, 'second run_model from the restored state: ' + txt, i))
@@ -832,6 +871,7 @@ class HistoryRun:
                         lab = _label(op, cfg)
                         before = Snap(model)
                         lin = _save_linear(model) if i in keep_lin_across else None
+                        bro = _save_broyden(model) if i in keep_broyden_across else None
                         try:
                             res = _query(prob, op, plan)
                             self.count('obs:' + lab)
@@ -864,6 +904,8 @@ class HistoryRun:
                             self.changed_at.add(i)
                         if lin is not None:
                             _restore_linear(model, lin)
+                        if bro is not None:
+                            _restore_broyden(model, bro)
                         if op.get('keep'):
                             self.results[i] = copy.deepcopy(res)
         finally:
@@ -1022,6 +1064,10 @@ def _find_culprit(plan, keep, a_only, i0, a_only_before):
                 r2 = HistoryRun(plan).run(include=set(keep) | {j}, keep_lin_across={j})
                 if not r2.exc and not any(i == i0 for i, _, _ in _compare(plan, r2, ref, aob)):
                     return 'leftover-linear-vectors:' + _label(hist[j], cfg)
+                if 'broyden' in plan['nls']:
+                    r3 = HistoryRun(plan).run(include=set(keep) | {j}, keep_lin_across={j}, keep_broyden_across={j})
+                    if not r3.exc and not any(i == i0 for i, _, _ in _compare(plan, r3, ref, aob)):
+                        return 'broyden-jacobian-carried-over:' + _label(hist[j], cfg)
                 return _label(hist[j], cfg)
     except Exception:
         if os.environ.get('OMV_DEBUG'):
